@@ -51,3 +51,14 @@ func (f *Findings) match(prop, obligation string) *Finding {
 	}
 	return nil
 }
+
+// matchLoose: the listed obligation names the failing obligation or a path instance / anchor instance of it.
+func (f *Findings) matchLoose(prop, obligation string) *Finding {
+	ob := strings.ReplaceAll(obligation, " ", "_")
+	for i := range f.list {
+		if f.list[i].Prop == prop && (f.list[i].Obligation == ob || strings.HasPrefix(ob, f.list[i].Obligation)) {
+			return &f.list[i]
+		}
+	}
+	return nil
+}
